@@ -417,7 +417,14 @@ func build(in input) (*experimentsv1beta1.Experiment, *trialsv1beta1.TrialList) 
 	if len(in.Prior.Optimal.Metrics) > 0 {
 		st.CurrentOptimalTrial.Observation.Metrics = toMetrics(in.Prior.Optimal.Metrics)
 	}
-	l := in.Prior.Lists
+	// copies: the slices of in.Prior.Lists belong to the replayable input and must not share memory with the status the
+	// implementation works on
+	var l [7][]string
+	for i, x := range in.Prior.Lists {
+		if x != nil {
+			l[i] = append([]string{}, x...)
+		}
+	}
 	st.RunningTrialList, st.PendingTrialList, st.FailedTrialList, st.SucceededTrialList = l[0], l[1], l[2], l[3]
 	st.KilledTrialList, st.EarlyStoppedTrialList, st.MetricsUnavailableTrialList = l[4], l[5], l[6]
 	c := in.Prior.Counters
